@@ -62,6 +62,8 @@ type boundsProver struct {
 	// nilMods: fields possibly written on paths to a return whose value may be nil
 	nilMods map[*ssa.Function]map[fieldKey]bool
 	log     []string
+	// falseMods: fields possibly written on paths to a return whose last (bool) result may be false
+	falseMods map[*ssa.Function]map[fieldKey]bool
 	// basesOnly: per struct type, whether its fields are stored only through parameters / local allocations
 	basesOnly map[*types.Named]bool
 }
@@ -789,6 +791,45 @@ func (fb *fnBounds) condConstraints(c ssa.Value, pol bool, at ssa.Instruction, d
 			return fb.condConstraints(t.X, !pol, at, d+1)
 		}
 	case *ssa.Extract:
+		// found == false of an in-module (…, bool) function: fields it does not write on a path to a
+		// possibly-false return are unchanged by the call
+		if call, ok := t.Tuple.(*ssa.Call); ok && !pol && call.Call.StaticCallee() != nil && fb.bp.p.InModule(call.Call.StaticCallee()) {
+			callee := call.Call.StaticCallee()
+			if t.Index == callee.Signature.Results().Len()-1 {
+				if fm := fb.bp.falseModsOf(callee); fm != nil {
+					var cs []constraint
+					for i, prm := range callee.Params {
+						pt, ok := prm.Type().Underlying().(*types.Pointer)
+						if !ok || i >= len(call.Call.Args) {
+							continue
+						}
+						n, st := namedStruct(pt.Elem())
+						if n == nil {
+							continue
+						}
+						arg := call.Call.Args[i]
+						for fi := 0; fi < st.NumFields(); fi++ {
+							f := st.Field(fi)
+							fk := fieldKey{Struct: n.String(), Field: f.Name()}
+							if !fb.bp.eff.trans[callee][fk] || fm[fk] {
+								continue
+							}
+							cls := "fld:" + fk.String()
+							before := fmt.Sprintf("mem(%s.%s@%s)", fb.vid(arg, call), f.Name(), fb.versionAt(cls, call))
+							after := fmt.Sprintf("mem(%s.%s@%s)", fb.vid(arg, call), f.Name(), fb.versionAfter(cls, call))
+							why := fmt.Sprintf("%s returned false: %s.%s is not written on any path to a possibly-false return", callee.Name(), n.Obj().Name(), f.Name())
+							switch {
+							case isIntType(f.Type()):
+								cs = append(cs, eqs(linVar(before), linVar(after), why)...)
+							case isStringType(f.Type()) || kindOf(f.Type()) == KSlice:
+								cs = append(cs, eqs(linVar("len:"+before), linVar("len:"+after), why)...)
+							}
+						}
+					}
+					return cs
+				}
+			}
+		}
 		// found of strings.CutSuffix / CutPrefix: len(s) = len(before|after) + len(affix)
 		if call, ok := t.Tuple.(*ssa.Call); ok && t.Index == 1 && pol && call.Call.StaticCallee() != nil {
 			switch call.Call.StaticCallee().String() {
@@ -1272,6 +1313,109 @@ func (bp *boundsProver) nilModsOf(fn *ssa.Function) map[fieldKey]bool {
 		}
 	}
 	bp.nilMods[fn] = m
+	return m
+}
+
+// falseModsOf: for a function whose last result is a bool ("found", "ok"): the fields possibly stored
+// (directly or through callees) on some path to a return where that bool may be false. A store that only
+// runs under the very value that is returned being true does not count, and a callee whose own "found" is
+// what this function returns contributes only its own false-mods. nil when the last result is not a bool.
+func (bp *boundsProver) falseModsOf(fn *ssa.Function) map[fieldKey]bool {
+	if bp.falseMods == nil {
+		bp.falseMods = map[*ssa.Function]map[fieldKey]bool{}
+	}
+	if m, ok := bp.falseMods[fn]; ok {
+		return m
+	}
+	res := fn.Signature.Results()
+	if res.Len() < 2 || !isBoolType(res.At(res.Len()-1).Type()) || len(fn.Blocks) == 0 {
+		bp.falseMods[fn] = nil
+		return nil
+	}
+	// while computing (recursion): everything the function may write
+	all := map[fieldKey]bool{}
+	for fk := range bp.eff.trans[fn] {
+		all[fk] = true
+	}
+	bp.falseMods[fn] = all
+	fb := bp.forFn(fn)
+	last := res.Len() - 1
+	m := map[fieldKey]bool{}
+	for _, b := range fn.Blocks {
+		ret, ok := b.Instrs[len(b.Instrs)-1].(*ssa.Return)
+		if !ok || last >= len(ret.Results) {
+			continue
+		}
+		v := ret.Results[last]
+		if c, isC := v.(*ssa.Const); isC && c.Value != nil && c.Value.String() == "true" {
+			continue
+		}
+		underTrue := func(blk *ssa.BasicBlock) bool {
+			if _, isC := v.(*ssa.Const); isC {
+				return false
+			}
+			for cf := range fb.facts[blk.Index] {
+				if cf.c == v && cf.pol {
+					return true
+				}
+			}
+			return false
+		}
+		if underTrue(b) {
+			continue // this return only happens with the value true
+		}
+		reach := map[*ssa.BasicBlock]bool{b: true}
+		work := []*ssa.BasicBlock{b}
+		for len(work) > 0 {
+			x := work[len(work)-1]
+			work = work[:len(work)-1]
+			for _, p := range x.Preds {
+				if !reach[p] {
+					reach[p] = true
+					work = append(work, p)
+				}
+			}
+		}
+		for rb := range reach {
+			if underTrue(rb) {
+				continue
+			}
+			for _, in := range rb.Instrs {
+				switch t := in.(type) {
+				case *ssa.Store:
+					if fa, ok := t.Addr.(*ssa.FieldAddr); ok {
+						m[fieldOf(fa)] = true
+					}
+				case ssa.CallInstruction:
+					if c := t.Common().StaticCallee(); c != nil && bp.p.InModule(c) {
+						mods := bp.eff.trans[c]
+						// the callee's own "found" is what is returned here
+						if ex, isEx := v.(*ssa.Extract); isEx && ex.Tuple == in.(ssa.Value) && ex.Index == c.Signature.Results().Len()-1 {
+							if fm := bp.falseModsOf(c); fm != nil {
+								mods = fm
+							}
+						}
+						// this return is only reached after the callee answered "not found"
+						for cf := range fb.facts[b.Index] {
+							if ex, isEx := cf.c.(*ssa.Extract); isEx && !cf.pol && ex.Tuple == in.(ssa.Value) && ex.Index == c.Signature.Results().Len()-1 {
+								if fm := bp.falseModsOf(c); fm != nil {
+									mods = fm
+								}
+							}
+						}
+						for fk := range mods {
+							m[fk] = true
+						}
+					} else if _, isBuiltin := t.Common().Value.(*ssa.Builtin); c == nil && !isBuiltin {
+						for fk := range bp.eff.trans[fn] {
+							m[fk] = true
+						}
+					}
+				}
+			}
+		}
+	}
+	bp.falseMods[fn] = m
 	return m
 }
 
